@@ -1,8 +1,8 @@
 CONFIG = {
     "id": "C08",
-    "coq_targets": ["Props/C08.v", "Model/SimCheck.v", "Model/DispatchCheck.v"],
+    "coq_targets": ["Model/DispatchInterp.v", "Gen/DispatchTable.v", "Proofs/DispatchTableProofs.v", "Props/C08.v", "Model/SimCheck.v", "Model/DispatchCheck.v"],
     "prop_files": ["Props/C08.v"],
-    "gen": [],
+    "gen": ["DispatchTable"],
     "components": [{
         "name": "sim", "modules": ["Base.NumOps", "Model.Turn", "Model.Sim", "Model.SimCheck"],
         "check": "check_case", "monitor": "monitor_c08", "model_out": "monitor_detail",
@@ -27,17 +27,20 @@ CONFIG = {
             "ticks, LimboWaitHeal verdict), decision sequences of the "
             "script callbacks incl. invalid targets and ult requests, cycle limit 0-4, insert budget 0-12; distinct = "
             "distinct input term",
-    "trusted": ["hits of harness content are 'plain' (no DEF/RES/stance/shield/crit), so a hit's total is its flat damage; the "
+    "trusted": [
+        'listener dispatch, TRANSLATED from the Go source on every run (go2coq DispatchTable -> Gen/DispatchTable.v; interpreter Model/DispatchInterp.v; Proofs/DispatchTableProofs.v; theorem C08_dispatch_is_the_source): the Subscribe wiring of (*Manager).subscribe (which event field of event.System is wired to which method, with which priority; the function is the only one of the package calling Subscribe and is called exactly once) and, for each of the 18 subscribed methods of listener.go, the locals `qualified := e...IsQualified()` / `snapshot := e...UseSnapshot` (field paths), the walks `for _, mod := range mgr.itr(<role expression>)` resp. `for _, t := range e.Targets { for _, mod := range mgr.itr(t) ... }` in source order, per walk whether `if snapshot && !mod.modifySnapshot { continue }` guards the body, the callbacks `f := mod.listeners.K; if f != nil [&& qualified] { f(mod [, e | e.Target]) }` in source order, the early `if result { return true }` and the closing `return false` of limboWaitHeal, and the field list of modifier.Listeners.  The interpretation of the generated table is proved EQUAL to Model/Dispatch.run_event (calls, verdict, read-back number, world afterwards) for every world and every event; so a changed role expression, callback field, order of walks or of callbacks, a dropped or added gate, a changed wiring or priority breaks a kernel-checked obligation for all inputs; any statement outside the recognised shapes (head of harness/cmd/go2coq/dispatch.go) makes go2coq exit 1 (broken translator obligation).  (*Manager).itr is checked to be verbatim make + copy + return',
+        'listener dispatch, still HAND-WRITTEN / trusted under the translator tie: callbacks are data (has = the Listeners field is non-nil, script_of / do_actions = what the harness callback does, c_snap = Instance.modifySnapshot, the recorded call, the number the six mutating harness callbacks rewrite), `attached` = mgr.targets[unit] with mgr.itr a copy of it taken when the walk starts, the table in Model/DispatchInterp.v saying which constructor argument of the model event is which Go field path (record projections: Attacker, Defender, Hit.AttackType.IsQualified(), Healer.ID(), Info.Target, ...), the event system that delivers an event to the subscribed method (C18) and that a priority-100 listener runs after the default-priority ones; NOT translated: emitAdd / emitRemove / emitDispel / emitExtendDuration / emitExtendCount / emitPropertyChange (the model has no event for them; it records OnAdd / OnRemove only as the consequence of a script attach / detach) and the OnPhase1 / OnPhase2 walks of tick.go (ETick) - those stay tied by correspondence only; the translator itself (go/packages, go/types front end and the shape matcher of dispatch.go)',
+        "hits of harness content are 'plain' (no DEF/RES/stance/shield/crit), so a hit's total is its flat damage; the "
                 "damage formula itself is C04",
                 "listener scripts never open or close an attack bracket (legal use of the API, enforced by the model as a "
                 "distinct outcome and respected by the generator); they may add hits to an attack that is open",
                 "the turn manager part is Model/Turn.v at binary64 (property C02)"],
     "assumptions": ["content uses the engine API legally: an attack bracket is opened (first qualified attack) and closed (EndAttack) only from action / ult / insert bodies"],
     "manifest": {
-        "level_text": 'Kernel-checked theorems about the executable whole-simulation model: what a death check kills (dead always, limbo only at turn end), that the living lists lose exactly the killed units and that no content script or listener can change them, that no HP change revives or re-limbos a dead unit, that an action starts only for an Alive unit and that queued inserts of dead / removed / flagged sources are dropped without any event. The trace-level statement is proved as one theorem over whole runs (C08_trace_level: for every configuration, content and fuel, the trace of every run that ends satisfies death_ok: announced at most once, afterwards absent from every turn order snapshot, sample, turn-end snapshot, never the acting unit, starts no action or insert), by a frame principle over all scripts (Proofs/SimFrame.v) and a per-function relation composed over the loop (Proofs/SimDeathTrace.v). The same boolean predicate, and the killer clause (killer = attacker of the last damaging hit, killer_ok_from, monitor only: not proved as a whole-run theorem), are evaluated on every real simulator trace.',
-        "level_note": "Coq kernel; hand-written model Model/Sim.v tied by whole-trace correspondence; content is scripted harness "
+        "level_text": 'Kernel-checked theorems about the executable whole-simulation model: what a death check kills (dead always, limbo only at turn end), that the living lists lose exactly the killed units and that no content script or listener can change them, that no HP change revives or re-limbos a dead unit, that an action starts only for an Alive unit and that queued inserts of dead / removed / flagged sources are dropped without any event. The trace-level statement is proved as one theorem over whole runs (C08_trace_level: for every configuration, content and fuel, the trace of every run that ends satisfies death_ok: announced at most once, afterwards absent from every turn order snapshot, sample, turn-end snapshot, never the acting unit, starts no action or insert), by a frame principle over all scripts (Proofs/SimFrame.v) and a per-function relation composed over the loop (Proofs/SimDeathTrace.v). The same boolean predicate, and the killer clause (killer = attacker of the last damaging hit, killer_ok_from, monitor only: not proved as a whole-run theorem), are evaluated on every real simulator trace. Listener dispatch (revive question LimboWaitHeal, death callbacks): Translator tie (way 1) of the listener dispatch: pkg/engine/modifier/listener.go (Subscribe wiring with priorities, walks, role expressions, snapshot / qualified / nil gates, callback order, the early return of limboWaitHeal) is regenerated as a first-order table on every run (go2coq DispatchTable) and its interpretation is proved EQUAL to the dispatch model for all worlds and events.',
+        "level_note": "go2coq DispatchTable translator + interpreter Model/DispatchInterp.v + kernel-checked equality generated table = Model/Dispatch.v; Coq kernel; hand-written model Model/Sim.v tied by whole-trace correspondence; content is scripted harness "
                       "content registered through the exported Register functions; internal/* content is not modelled.",
-        "technique": 'Coq proofs (frame and absorption lemmas over all scripts) + whole-trace correspondence + trace monitor',
+        "technique": 'source-to-Coq translation of listener.go into a dispatch table with an interpreter and equality proofs (induction over attached lists and walks, computation per event kind) + Coq proofs (frame and absorption lemmas over all scripts) + whole-trace correspondence + trace monitor',
         "design_ref": "DESIGN.md section 7, C08",
     },
 }
